@@ -509,7 +509,7 @@ def sweep_mirp(ctx, dist, reported):
 # ----------------------------------------------------------------------------------------------------------
 # correspondence: the same instances through the Gallina models (coq/theories/Heur.v), compared inside Coq
 # ----------------------------------------------------------------------------------------------------------
-HEADER = ("From Coq Require Import ZArith List.\nFrom VQ Require Import Base Vrptw Path Heur.\nImport ListNotations.\n"
+HEADER = ("From Coq Require Import ZArith List.\nFrom VQ Require Import Base Vrptw Path Seq Heur.\nImport ListNotations.\n"
           "Open Scope Z_scope.")
 
 
@@ -623,6 +623,110 @@ def correspondence_path(ctx, dist, descs):
                            implementation_outcomes=outs, model=model[-3000:]), False)
 
 
+def seq_case(desc, highs):
+    """Run the real sequence heuristic; returns (Gallina case literal, outcome strings)."""
+    rp = build("seq", desc)
+    obs, outs = [], []
+    for high in highs:
+        try:
+            rp.make_feasible(high)
+        except Exception as e:  # noqa
+            obs.append(lit.err(exc_cls(e)))
+            outs.append("raised:" + type(e).__name__)
+            break
+        x = lit.lst([lit.z(lit.exact_int(v)) for v in np.asarray(rp.feasible_solution).tolist()])
+        arcs = lit.lst([lit.pair(lit.pair(lit.nat(i), lit.nat(j)), lit.pair(lit.z(lit.exact_int(a.travel_time)), lit.z(lit.exact_int(a.cost))))
+                        for (i, j), a in rp.arcs.items()])
+        vc = lit.lst([lit.z(lit.exact_int(c)) for c in rp.vehicle_cost])
+        obs.append(lit.ok(lit.tup(x, arcs, lit.nat(rp.max_vehicles), vc)))
+        outs.append("ok")
+    term = lit.tup(lit.boolean(desc["strict"]), gops_lit(desc), lit.nat(desc["V"]), lit.nat(desc["L"]),
+                   lit.lst([lit.z(h) for h in highs]), lit.lst(obs))
+    return term, outs
+
+
+def correspondence_seq(ctx, dist, descs):
+    rng = ctx.rng
+    terms, meta = [], []
+    for desc in descs:
+        highs = [rng.choice(HIGHS), rng.choice(HIGHS)]
+        term, outs = seq_case(desc, highs)
+        terms.append(term)
+        meta.append((desc, highs, outs))
+        for k, o in enumerate(outs):
+            dist[f"corr/seq/call{k + 1}/{o}"] += 1
+    mism, err = ctx.coq_mismatches("seq", HEADER, "scase9", "check_scase9", terms, shard=40)
+    ctx.count(evaluations=sum(len(m[2]) for m in meta), traces=len(terms))
+    if ctx.has_concrete():
+        mism = []
+    for idx, tags in mism[:2]:
+        desc, highs, outs = meta[idx]
+        fail, trace = instance_oracle("seq", desc, tuple(highs))
+        if fail is not None:
+            report(ctx, signature("seq", fail[0]), fail[1], dict(json_desc("seq", desc, highs), trace=trace, **fail[2]))
+            continue
+        model = ctx.coq_eval(HEADER, "match " + terms[idx] + " with (st, ops, V, L, highs, _) => match sinst_of st ops V L with "
+                             "Ok J => map observe_s9 (mf_seq_iter st J highs) | Err e => [Err e] end end")
+        ctx.violation("correspondence/seq/invocation" + "+".join(str(t) for t in tags),
+                      f"model mf_seq and SequenceBasedRoutingProblem.make_feasible disagree (tags {tags}: k = observation after "
+                      "invocation k, 9 = number of invocations); the property oracle found no failing input on this instance",
+                      dict(json_desc("seq", desc, highs), correspondence="Heur.check_scase9",
+                           implementation_outcomes=outs, model=model[-3000:]), False)
+
+
+HEADER_ARC = ("From Coq Require Import ZArith List.\nFrom VQ Require Import Base Vrptw Arc Heur_arc.\nImport ListNotations.\n"
+              "Open Scope Z_scope.")
+
+
+def arc_case(desc, highs):
+    """Run the real arc heuristic; returns (Gallina case literal, outcome strings)."""
+    rp = build("arc", desc)
+    obs, outs = [], []
+    for high in highs:
+        try:
+            rp.make_feasible(high)
+        except Exception as e:  # noqa
+            obs.append(lit.err(exc_cls(e)))
+            outs.append("raised:" + type(e).__name__)
+            break
+        x = lit.lst([lit.z(lit.exact_int(v)) for v in np.asarray(rp.feasible_solution).tolist()])
+        arcs = lit.lst([lit.pair(lit.pair(lit.nat(i), lit.nat(j)), lit.pair(lit.z(lit.exact_int(a.travel_time)), lit.z(lit.exact_int(a.cost))))
+                        for (i, j), a in rp.arcs.items()])
+        obs.append(lit.ok(lit.pair(x, arcs)))
+        outs.append("ok")
+    term = lit.tup(gops_lit(desc), lit.lst([lit.z(t) for t in desc["time_points"]]), lit.lst([lit.z(h) for h in highs]), lit.lst(obs))
+    return term, outs
+
+
+def correspondence_arc(ctx, dist, descs):
+    rng = ctx.rng
+    terms, meta = [], []
+    for desc in descs:
+        highs = [rng.choice(HIGHS), rng.choice(HIGHS)]
+        term, outs = arc_case(desc, highs)
+        terms.append(term)
+        meta.append((desc, highs, outs))
+        for k, o in enumerate(outs):
+            dist[f"corr/arc/call{k + 1}/{o}"] += 1
+    mism, err = ctx.coq_mismatches("arc", HEADER_ARC, "acase9", "check_acase9", terms, shard=40)
+    ctx.count(evaluations=sum(len(m[2]) for m in meta), traces=len(terms))
+    if ctx.has_concrete():
+        mism = []
+    for idx, tags in mism[:2]:
+        desc, highs, outs = meta[idx]
+        fail, trace = instance_oracle("arc", desc, tuple(highs))
+        if fail is not None:
+            report(ctx, signature("arc", fail[0]), fail[1], dict(json_desc("arc", desc, highs), trace=trace, **fail[2]))
+            continue
+        model = ctx.coq_eval(HEADER_ARC, "match " + terms[idx] + " with (ops, grid, highs, _) => map observe_a9 (mf_arc_iter "
+                             "(mkInst (run Base ops empty_graph) grid) highs) end")
+        ctx.violation("correspondence/arc/invocation" + "+".join(str(t) for t in tags),
+                      f"model mf_arc and ArcBasedRoutingProblem.make_feasible disagree (tags {tags}: k = observation after "
+                      "invocation k, 9 = number of invocations); the property oracle found no failing input on this instance",
+                      dict(json_desc("arc", desc, highs), correspondence="Heur_arc.check_acase9",
+                           implementation_outcomes=outs, model=model[-3000:]), False)
+
+
 # ----------------------------------------------------------------------------------------------------------
 def run(ctx):
     ctx.prove()
@@ -636,6 +740,8 @@ def run(ctx):
     for k in range(n_corr):
         descs.append(targeted(rng)[1] if k % 2 else fh.random_instance(rng))
     correspondence_path(ctx, dist, descs)
+    correspondence_seq(ctx, dist, descs)
+    correspondence_arc(ctx, dist, descs)
     ctx.cov["input_distribution"] = dict(sorted(dist.items()))
     ctx.cov["rule"] = ("evaluations = make_feasible invocations on the real objects whose outcome was checked against the property's "
                        "predicate; non-trivial = distinct small instance on which the heuristic had to repair the problem (nodes / arcs / "
